@@ -47,6 +47,8 @@ class move_token_left_to_next_non_whitespace_token(structure.Rule):
                 continue
             if oToi.token_type_exists(token.pragma.pragma):
                 continue
+            if comment_would_absorb_code(oToi, oFile):
+                continue
             lReturn.append(oToi)
         return lReturn
 
@@ -76,6 +78,23 @@ class move_token_left_to_next_non_whitespace_token(structure.Rule):
         lNewTokens = utils.fix_blank_lines(lNewTokens)
 
         oViolation.set_tokens(lNewTokens)
+
+
+def comment_would_absorb_code(oToi, oFile):
+    """
+    The moved token ends up in front of a comment that was at the end of the previous line.
+    That is only safe if the moved token was the last code on its own line.
+    """
+    lTokens = oToi.get_tokens()
+    if not any(type(oToken) == parser.comment for oToken in lTokens):
+        return False
+    iNext = oToi.get_end_index()
+    lAllTokens = oFile.lAllObjects
+    if iNext < len(lAllTokens) and isinstance(lAllTokens[iNext], parser.whitespace):
+        iNext += 1
+    if iNext >= len(lAllTokens):
+        return False
+    return not isinstance(lAllTokens[iNext], parser.carriage_return)
 
 
 def does_a_whitespace_token_separate_tokens(lTokens):
